@@ -106,6 +106,11 @@ class Walk:
                 pv = self._promoted("%s::{promoted#%s}" % (k["uneval"], k["promoted"]))
                 if pv != TOP:
                     return pv
+            if k.get("static"):
+                # a reference to a `static` item: the value its (straight-line) initialiser builds
+                pv = self._promoted(k["static"])
+                if pv != TOP:
+                    return pv
             s = self.ctx.facts.const_str(k)
             if s is not None:
                 return const(s)
